@@ -290,3 +290,40 @@ B("c19-scan-whole-text", ["C19"], "find.py", "    remaining_text = plain_text[ci
 B("c19-reference-for-any-citation", ["C19"], "find.py", "    if not isinstance(citation, FullCaseCitation):\n        return []\n\n    reference_citations = extract_pincited", "    reference_citations = extract_pincited", rule="R-C19-2")
 B("c19-valid-name-allows-short", ["C19"], "utils.py", "        and len(name) > 2\n", "", rule="R-C19-4")
 B("c19-tokenize-markup", ["C19"], "models.py", "        self.words, self.citation_tokens = tokenizer.tokenize(self.plain_text)\n", "        self.words, self.citation_tokens = tokenizer.tokenize(\n            self.markup_text or self.plain_text\n        )\n", rule="R-C19-1")
+
+# ------------------------------------------------------------------ C20
+P("seed-C20-1", ["C20"], "seeded/C20-1/patch.diff", rule="R-C20-1")
+P("seed-C20-2", ["C20"], "seeded/C20-2/patch.diff", rule="R-C20-5")
+B("c20-unknown-step-ignored", ["C20"], "clean.py", "        else:\n            raise ValueError(\n                \"clean_text steps must be callable \"\n                f\"or one of {list(cleaners_lookup.keys())}\"\n            )\n",
+  "        else:\n            continue\n")
+B("c20-keyerror-instead", ["C20"], "clean.py", "            raise ValueError(\n", "            raise KeyError(\n", rule="R-C20-2")
+B("c20-star-instead-of-plus", ["C20"], "clean.py", 'return re.sub(r"[ \\t]+", " ", text)', 'return re.sub(r"[ \\t]*", " ", text)', rule="R-C20-4")
+B("c20-replacement-outside-class", ["C20"], "clean.py", 'return re.sub(r"[ \\t]+", " ", text)', 'return re.sub(r"[ \\t]+", "\\n", text)', rule="R-C20-4")
+B("c20-two-char-replacement", ["C20"], "clean.py", 'return re.sub(r"\\s+", " ", text)', 'return re.sub(r"\\s+", "  ", text)', rule="R-C20-4")
+B("c20-underscores-single", ["C20"], "clean.py", 'return re.sub(r"__+", "", text)', 'return re.sub(r"_+", " ", text)', rule="R-C20-4")
+B("c20-table-mismatch", ["C20"], "clean.py", '    "inline_whitespace": inline_whitespace,\n    "all_whitespace": all_whitespace,\n', '    "inline_whitespace": all_whitespace,\n    "all_whitespace": all_whitespace,\n', rule="R-C20-3")
+B("c20-applies-twice", ["C20"], "clean.py", "        text = step_func(text)\n\n    return text", "        text = step_func(step_func(text))\n\n    return text", rule="R-C20-1")
+B("c20-html-keeps-script", ["C20"], "clean.py", "            parent::head |\n            parent::script)]", "            parent::head)]", rule="R-C20-5")
+N("c20-underscore-quantifier", ["C20"], "clean.py", 'return re.sub(r"__+", "", text)', 'return re.sub(r"_{2,}", "", text)')
+N("c20-lookup-get", ["C20"], "clean.py", "        if step in cleaners_lookup:\n            step_func = cleaners_lookup[step]  # type: ignore\n", "        if step in cleaners_lookup:\n            step_func = cleaners_lookup[step]\n")
+
+# ------------------------------------------------------------------ C04
+P("seed-C04-1", ["C04"], "seeded/C04-1/patch.diff", rule="T4")
+P("seed-C04-2", ["C04"], "seeded/C04-2/patch.diff", rule="T5")
+B("c04-unchecked-post-citation-match", ["C04"], "helpers.py", "        POST_FULL_CITATION_REGEX,\n    )\n    if not m:\n        return\n", "        POST_FULL_CITATION_REGEX,\n    )\n", rule="T2")
+B("c04-unchecked-hyperscan-rematch", ["C04"], "tokenizers.py", "                if m:\n                    yield extractor.get_token(m, offset=start)\n", "                yield extractor.get_token(m, offset=start)\n", rule="T2")
+B("c04-antecedent-made-optional", ["C04"], "regexes.py", "    (?P<antecedent>[A-Za-z][\\w\\-.]+)\\ ?,?\n    \\   # final space\n", "    (?P<antecedent>[A-Za-z][\\w\\-.]+)?\\ ?,?\n    \\   # final space\n", rule="T3")
+B("c04-pin-cite-len-unguarded", ["C04"], "helpers.py", "    if m[\"pin_cite\"]:\n        citation.metadata.pin_cite_span_end = citation.span()[1] + len(\n            m[\"pin_cite\"]\n        )\n",
+  "    citation.metadata.pin_cite_span_end = citation.span()[1] + len(\n        m[\"pin_cite\"]\n    )\n", rule="T3")
+B("c04-int-volume", ["C04"], "find.py", "        antecedent_guess = m[\"antecedent\"]\n        volume = m[\"volume\"]\n", "        antecedent_guess = m[\"antecedent\"]\n        volume = str(int(m[\"volume\"]))\n")
+B("c04-page-replace-unguarded", ["C04"], "models.py", "        if corrected_page and corrected_page != self.groups[\"page\"]:\n", "        if corrected_page != self.groups[\"page\"]:\n", rule="T4")
+B("c04-first-candidate-unguarded", ["C04"], "resolve.py", "    matches = list(set(matches))\n    return matches[0] if len(matches) == 1 else None\n\n\ndef _has_invalid_pin_cite", "    matches = list(set(matches))\n    return matches[0]\n\n\ndef _has_invalid_pin_cite", rule="T6")
+B("c04-citations-last-unguarded", ["C04"], "find.py", "                if (\n                    citations\n                    and isinstance(citation, FullCaseCitation)\n", "                if (\n                    isinstance(citation, FullCaseCitation)\n", rule="T6")
+B("c04-name-not-escaped", ["C04"], "find.py", '        rf"(?P<{key}>{re.escape(value)})"\n', '        rf"(?P<{key}>{value})"\n', rule="T8")
+B("c04-metadata-key-typo", ["C04"], "find.py", '            "pin_cite": pin_cite,\n            "parenthetical": parenthetical,\n            "volume": volume,\n', '            "pincite": pin_cite,\n            "parenthetical": parenthetical,\n            "volume": volume,\n', rule="T9")
+B("c04-new-raise-on-input", ["C04"], "helpers.py", "    if year < 1600 or year > _highest_valid_year:\n        return None\n", "    if year < 1600 or year > _highest_valid_year:\n        raise ValueError(word)\n", rule="T1")
+B("c04-fourth-source-tag", ["C04"], "tokenizers.py", '                source="journals",\n', '                source="periodicals",\n', rule="T1")
+B("c04-stop-word-group-renamed", ["C04"], "regexes.py", "rf'(?P<stop_word>{\"|\".join(STOP_WORDS)})'", "rf'(?P<stopword>{\"|\".join(STOP_WORDS)})'", rule="T7")
+N("c04-guard-is-none", ["C04"], "helpers.py", "        words, citation.index + 1, POST_LAW_CITATION_REGEX, strings_only=True\n    )\n    if not m:\n        return\n", "        words, citation.index + 1, POST_LAW_CITATION_REGEX, strings_only=True\n    )\n    if m is None:\n        return\n")
+N("c04-nested-guard", ["C04"], "find.py", "    if m:\n        antecedent_guess = m[\"antecedent\"]\n        volume = m[\"volume\"]\n        antecedent_length = m.span()[1] - m.span()[0]\n    else:\n        antecedent_length = 0\n",
+  "    antecedent_length = 0\n    if m is not None:\n        antecedent_guess = m[\"antecedent\"]\n        volume = m[\"volume\"]\n        antecedent_length = m.span()[1] - m.span()[0]\n")
